@@ -201,6 +201,7 @@ class Ex:
         if key not in self.heap:
             self.heap[key] = z3.Array(f"H_{field}_{sort_key(sort).replace(' ', '_').replace('(', '').replace(')', '')}", REF, sort)
             self.__dict__.setdefault("_init_ids", {})[key] = self.heap[key].get_id()
+            self.__dict__.setdefault("_init_maps", {})[key] = self.heap[key]
             if getattr(self, "closure_on", False) and not getattr(self, "binder_depth", 0) and not getattr(self, "pure_depth", 0):
                 self.closure_for(key)
             elif getattr(self, "closure_on", False):
